@@ -96,6 +96,12 @@ pub fn concretize_chunks(abs: &[AbsChunk], cfg: L2Cfg) -> Vec<Chunk> {
                 chunks.push(Chunk::Raw { reset_dict, data });
             }
             AbsChunk::Lzma { reset, props, lead, prog, exact64k } => {
+                // exact-size padding only when the stream budget allows it
+                let exact64k = &(if cfg.max_total.saturating_sub(it.out.len()) >= (*exact64k as usize).min(32) * 65536 {
+                    *exact64k
+                } else {
+                    0
+                });
                 let mut r = *reset & 3;
                 if need_dict_reset {
                     r = 3;
